@@ -319,6 +319,17 @@ impl ForeignLayout {
         }
     }
 
+    /// Structural fingerprint of the whole circuit: number of rows on which each selector of the
+    /// constraint system is enabled, and number of assigned advice cells. Circuit structure does
+    /// not depend on the witness, so this is a function of the instruction and of which inputs
+    /// are constants.
+    pub fn fingerprint(mp: &MockProver<F>) -> String {
+        use midnight_proofs::dev::CellValue;
+        let sel: Vec<String> = mp.selectors().iter().map(|c| c.iter().filter(|b| **b).count().to_string()).collect();
+        let adv: usize = mp.advice().iter().map(|c| c.iter().filter(|v| matches!(v, CellValue::Assigned(_))).count()).sum();
+        format!("sel={} adv={}", sel.join(","), adv)
+    }
+
     /// Number of activations of each EC gate.
     pub fn shape(&self, mp: &MockProver<F>) -> String {
         let sel = mp.selectors();
@@ -412,6 +423,7 @@ fn do_case<S: Suite + 'static>(ctx: &mut Out, class: &str, spec: &Spec) {
             match &spec.op {
                 Op::Assign | Op::AssignFixed | Op::Coords | Op::Add | Op::Double | Op::Neg | Op::Select(_) => {
                     ctx.case(&format!("{}:acts:{}", S::NAME, spec.op.name()), true, &format!("{} acts {}", S::NAME, body), &lay.acts::<S>(mp, fl));
+
                 }
                 Op::MulConst | Op::Msm | Op::MsmBits(_) | Op::MsmBounded(_) | Op::SubgroupCheck => {
                     let extra = match &spec.op {
@@ -423,6 +435,39 @@ fn do_case<S: Suite + 'static>(ctx: &mut Out, class: &str, spec: &Spec) {
                 }
                 _ => {}
             }
+        }
+    }
+    // structural fingerprint of the parameter-free instructions (all chips) and of the
+    // multiplication instructions on fixed parameters
+    if r.verdict == Ok(true) {
+        // w = witness, f = constant, i = constant identity (constants are cached per value)
+        let pattern: String = spec
+            .pts
+            .iter()
+            .map(|(d, f)| if !*f { 'w' } else if *d == b(0) { 'i' } else { 'f' })
+            .collect();
+        let key = match &spec.op {
+            Op::Assign | Op::AssignFixed | Op::Coords | Op::Add | Op::Double | Op::Neg | Op::Select(_) | Op::IsEqual => {
+                Some(format!("{} {}", spec.op.name(), pattern))
+            }
+            Op::MulConst if !class.contains("rand'") && !class.ends_with("xrand") => {
+                Some(format!("mul_const:{} {}", hex(&(&spec.scalars[0] % S::order())), pattern))
+            }
+            Op::Msm if spec.pts.len() <= 3 => Some(format!("msm {}", pattern)),
+            Op::MsmBounded(b) => Some(format!("msm_bounded:{} {}", mzkh::join(b), pattern)),
+            Op::MsmBits(l) => Some(format!("msm_bits:{} {}", mzkh::join(l), pattern)),
+            Op::MulLeBytes => Some(format!("mul_le_bytes {}", pattern)),
+            Op::MulConvert => Some(format!("mul_convert {}", pattern)),
+            Op::SubgroupCheck => Some(format!("subgroup_check {}", pattern)),
+            _ => None,
+        };
+        if let (Some(mp), Some(key)) = (r.prover.as_ref(), key) {
+            ctx.case(
+                &format!("{}:fingerprint:{}", S::NAME, spec.op.name()),
+                false,
+                &format!("{} fingerprint {}", S::NAME, key),
+                &ForeignLayout::fingerprint(mp),
+            );
         }
     }
     // oracle: honest witness accepted, result = group operation
